@@ -302,6 +302,10 @@ class Producer(object):
         ask our partitioner for the next partition to which we should publish
         for the give key. If needed, create a new partitioner for the topic.
         """
+        # The message format used for the batch depends on the outcome of
+        # protocol version discovery, so make sure that has happened.
+        if self.client._api_versions is None:
+            yield self.client.fetch_api_versions()
         # check if the client has metadata for the topic
         while self.client.metadata_error_for_topic(topic):
             # client doesn't have good metadata for topic. ask to fetch...
